@@ -439,6 +439,10 @@ Definition step_r (c : config) (st : state) (r : nat) : state * obs :=
   end.
 
 (* ------------------------------------------------------------------ maintenance *)
+(* The files and descriptors behind these steps (which document descriptor the sealed fraction reads from, what
+   Active.Release / Suicide close and remove, for both values of frac.Config.SkipSortDocs and KeepMetaFile) are the
+   subject of ModelFiles.v, which runs in lock-step with `step` (xstep) - kept in a separate file so that this
+   record and the proofs over it stay as they are. *)
 Definition set_seal (f : frac) (act sld ro : bool) (seal : spc) (sdocs : list doc) : frac :=
   mkFrac act sld ro (f_blocks f) (f_pos f) (f_ldocs f) (f_toks f)
          (f_from f) (f_to f) (f_total f) (f_wg f) (f_rl f) (f_subs f) seal sdocs (f_ssui f).
